@@ -123,6 +123,7 @@ class State:
         self.calls: Dict[str, list] = {}                   # ghost call log: name -> [env at call]
         self.objcls: Dict[str, str] = {}
         self.broad = False          # a loop whose body has effects the syntactic scan cannot see was cut on this path
+        self.wild = frozenset()     # fields a callee's frame names for every object ("*.fld"): unread locations are havoced on first read
 
     def snapshot(self) -> "State":
         s = State()
@@ -134,6 +135,7 @@ class State:
         s.calls = {k: list(v) for k, v in self.calls.items()}
         s.objcls = self.objcls
         s.broad = self.broad
+        s.wild = self.wild
         return s
 
 
@@ -171,6 +173,13 @@ class Engine:
     def run(self) -> List[VC]:
         prefix = []
         seen = 0
+        # staleness: loop invariants written for a function with a given number of loops say nothing about a body whose loops
+        # were merged, split or removed - the contract is out of date (undecided), whatever the obligations would come out as
+        want_ = getattr(self.c, "static_loops", None)
+        if want_ is not None and getattr(self.x, "node", None) is not None:
+            have_ = sum(1 for n_ in ast.walk(self.x.node) if isinstance(n_, (ast.For, ast.While, ast.AsyncFor)))
+            if have_ != want_:
+                raise StaleContract(f"{self.c.key}: the loop contracts are written for {want_} loops, the code has {have_}")
         while prefix is not None:
             self.ch = Chooser(prefix)
             self._run_one()
@@ -438,7 +447,11 @@ class Engine:
         if key in st.heap:
             return st.heap[key]
         if key in st.init_heap:
-            return st.init_heap[key]
+            v0 = st.init_heap[key]
+            if fld in st.wild and v0.k != "obj":
+                st.heap[key] = self._havoc_value(v0, f"{obj.t}.{fld}")
+                return st.heap[key]
+            return v0
         srt = self.reg.field_sort(obj.cls, fld)
         if srt is None:
             raise OutOfReach(f"{self.c.key}: field {obj.cls}.{fld} has no declared sort")
@@ -451,6 +464,9 @@ class Engine:
         st.init_heap[key] = v
         if obj.t in self.entry.env or obj.t == "self" or "." in obj.t:
             self.inputs[f"{obj.t}.{fld}"] = v
+        if fld in st.wild and v.k != "obj":
+            st.heap[key] = self._havoc_value(v, f"{obj.t}.{fld}")
+            return st.heap[key]
         if st.broad and not self.spec_mode_old() and self._may_change(obj.t, fld):
             # first read after a loop cut with unseen effects: the loop may have changed this location
             v2 = self._havoc_value(v, f"{obj.t}.{fld}")
@@ -1453,6 +1469,8 @@ class Engine:
                     return self.pyval(getattr(mod, nm))
             except ImportError:
                 pass
+        if self.spec_mode and re.fullmatch(r"L\d+_left_early", nm):
+            return mk_int(z3.IntVal(0))          # the loop was not reached on this path: it was not left early either
         raise OutOfReach(f"{self.c.key}: unresolved name {nm}")
 
     def pyval(self, x) -> V:
@@ -3047,6 +3065,17 @@ class Engine:
         if cc.frame is None:
             raise OutOfReach(f"callee {cc.key} has no frame")
         for path in cc.frame:
+            if path.startswith("*."):
+                # the callee may change this field of any object
+                fld = path[2:]
+                st_ = self.st
+                st_.wild = st_.wild | {fld}
+                for (o_, f_) in set(st_.heap) | set(st_.init_heap):
+                    if f_ == fld:
+                        cur_ = st_.heap.get((o_, f_), st_.init_heap.get((o_, f_)))
+                        if cur_.k != "obj":
+                            st_.heap[(o_, f_)] = self._havoc_value(cur_, f"{o_}.{f_}")
+                continue
             if "." in path:
                 root, fld = path.rsplit(".", 1)
                 try:
